@@ -13,6 +13,10 @@ CHECKS = {
           'wire', 'DESIGN.md section 4 C01',
           'Generated datapoint streams x generated/whole/byte-wise/every-single-cut segmentations through the real line, UDP and pickle listener protocols; recorder output compared with an independent rational-arithmetic decoder. Exploration is the right level: the claim is over inputs x delivery schedules and has an exact executable oracle.',
           'Twisted LineOnlyReceiver/Int32StringReceiver and StringTransport are trusted; protobuf listener not importable here (not covered).'),
+  'C11': ('exploration', 'property-based testing (Hypothesis): constructive malformed/well-formed interleavings with a differential oracle, byte-level mutation with a neighbour-preservation oracle',
+          'wire', 'DESIGN.md section 4 C11',
+          'Streams interleaving well-formed items with every malformed class named by the property (plus byte mutations, over-long items, length-prefix corruption) through the real listeners under generated segmentations; oracle: no exception leaves the handler, no disconnect unless an item exceeded the maximum length, delivered datapoints equal those of the stream with the malformed items removed. Three genuine defects found and fixed (see KNOWN_FINDINGS.txt).',
+          'Items whose acceptance the documentation leaves open (bytes names, numeric strings, bools, negative timestamps) are not generated. Twisted framing trusted.'),
 }
 
 PENDING_REASON = 'check not built yet in this session (design in DESIGN.md section 4); will be claimed once its check is quiet on the unchanged tree and catches its mutants'
